@@ -482,6 +482,59 @@ def _support_by_loops(gg):
 
 
 
+def _qrange_by_loop(facts, qb):
+    """q_range = range_of(v) with v filled by `for i in self.support() { v.extend(self[i].raw_gens().iter().map(q_deg)) }`"""
+    from symex import apply_closure
+    try:
+        paths = SymEx(qb, havoc_loops=True).run()
+    except Exception:
+        return False
+
+    def dk(t):
+        return re.sub(r'&mut _\d+', 'IT', re.sub(r'\^_ref__', '^', sk(t))).replace('&', '').replace('*', '')
+    rets = [p for p in paths if p.end == 'return']
+    back = [p for p in paths if p.end == 'backedge']
+    if len(rets) != 1 or not back:
+        return False
+    r = strip(rets[0].ret)
+    if not (r[0] == 'call' and r[1].split('::')[-1] == 'range_of' and len(r[2]) == 1 and strip(r[2][0])[0] == 'loopvar'):
+        return False
+    L = strip(r[2][0])[2]
+    entry = {}
+    for p in paths:
+        for (fid, bb, l), v in p.state.loop_entry.items():
+            if fid == 0 and strip(v)[0] != 'loopvar':
+                entry.setdefault(l, set()).add(dk(v))
+    if entry.get(L) != {'new()'}:
+        return False
+    for p in paths:
+        if any(e.kind == 'branch' and not dk(e.term).startswith('discr(next(') for e in p.events):
+            return False        # a conditional skip
+    ok = False
+    for p in back:
+        fills = [e for e in p.calls() if e.args and e.args[0] == ('mref', (('local', L), ()))]
+        if len(fills) != 1 or fills[0].name.split('::')[-1] != 'extend':
+            return False
+        src = strip(fills[0].args[1])
+        if not (src[0] == 'call' and src[1].split('::')[-1] == 'map' and len(src[2]) == 2):
+            return False
+        it = strip(src[2][0])
+        if dk(it) != 'iter(raw_gens(index(arg1, next(IT).Some.0)))':
+            return False
+        nx = None
+        for y in subterms(it):
+            if isinstance(y, tuple) and y and y[0] == 'call' and y[1].endswith('Iterator::next') and y[2][0][0] == 'mref':
+                nx = y[2][0][1][0][1]
+        if entry.get(nx) != {'into_iter(support(arg1))'}:
+            return False
+        vals = {dk(q.ret).replace("('item',)", 'ITEM') for q in apply_closure(src[2][1], [('item',)]) or [] if q.end == 'return'}
+        if vals != {'q_deg(ITEM)'}:
+            return False
+        ok = True
+    return ok
+
+
+
 def check_support(facts, rep):
     """G5"""
     K = 'yui_kh::kh::complex::KhComplex::<R>::'
@@ -505,6 +558,8 @@ def check_support(facts, rep):
     inst = 'KhComplex::q_range|min..max of the q-degrees of every generator of every supported summand'
     ok = (h == ['range_of(support(arg1))'] and q == ['range_of(flat_map(support(arg1), closure<{closure#0}>))'] and
           inner == ['map(iter(raw_gens(index(*arg1.^self, arg2))), closure<{closure#0}>)'] and mapf == ['q_deg(arg2)'])
+    if not ok and h == ['range_of(support(arg1))']:
+        ok = _qrange_by_loop(facts, need['q_range'])
     if ok:
         rep.ok('E23.G5-support-covers-all', inst, 'range_of(support().flat_map(|i| self[i].raw_gens().map(q_deg)))')
     else:
